@@ -164,7 +164,7 @@ func groupPaths(n *gen.Node, prefix []string, out *[][]string) {
 // edit scripts
 
 type edit struct {
-	Op   string    `json:"op"`             // del | add | perm | clash
+	Op   string    `json:"op"`             // del | add | perm | opt | clash
 	Path []string  `json:"path"`           // group in which the edit happens
 	Name string    `json:"name,omitempty"` // del/clash: field; add: new field name
 	Pos  int       `json:"pos,omitempty"`  // add: insertion position; perm: rotation
@@ -208,6 +208,13 @@ func applyEdits(src *gen.Node, edits []edit) *gen.Node {
 				for i, j := 0, len(g.Fields)-1; i < j; i, j = i+1, j-1 {
 					g.Fields[i], g.Fields[j] = g.Fields[j], g.Fields[i]
 				}
+			}
+		case "opt":
+			// the target reads a required field of the source as an optional
+			// one (a struct field read into a pointer field, a nullable or
+			// merged schema): every level below it shifts, no value changes
+			if i := fieldIndex(g, e.Name); i >= 0 && g.Fields[i].Rep == gen.Req {
+				g.Fields[i].Rep = gen.Opt
 			}
 		case "clash":
 			i := fieldIndex(g, e.Name)
@@ -258,6 +265,19 @@ func genEdits(rng *rand.Rand, src *gen.Node, n int, ops []string) []edit {
 		p := paths[rng.Intn(len(paths))]
 		g := groupAt(cur, p)
 		e := edit{Op: ops[rng.Intn(len(ops))], Path: p}
+		if e.Op == "opt" {
+			var req []string
+			for _, f := range g.Fields {
+				if f.Rep == gen.Req {
+					req = append(req, f.Name)
+				}
+			}
+			if len(req) == 0 {
+				e.Op = "perm"
+			} else {
+				e.Name = req[rng.Intn(len(req))]
+			}
+		}
 		switch e.Op {
 		case "del", "clash":
 			e.Name = g.Fields[rng.Intn(len(g.Fields))].Name
@@ -271,6 +291,20 @@ func genEdits(rng *rand.Rand, src *gen.Node, n int, ops []string) []edit {
 		}
 		edits = append(edits, e)
 		cur = applyEdits(cur, []edit{e})
+		// now and then nothing of a widened group is kept: a column is added
+		// to it and all its own fields are deleted (whether such a group
+		// reads as null or as present is the library's choice, see goProjectAt)
+		if e.Op == "opt" && rng.Intn(3) == 0 {
+			if wg := groupAt(cur, append(append([]string(nil), p...), e.Name)); wg != nil {
+				wp := append(append([]string(nil), p...), e.Name)
+				more := []edit{{Op: "add", Path: wp, Name: "w" + fmt.Sprint(len(edits)), Pos: rng.Intn(4), Node: genAddNode(rng, 1)}}
+				for _, f := range wg.Fields {
+					more = append(more, edit{Op: "del", Path: wp, Name: f.Name})
+				}
+				edits = append(edits, more...)
+				cur = applyEdits(cur, more)
+			}
+		}
 	}
 	return edits
 }
@@ -325,7 +359,45 @@ func defaultVal(f *gen.Node) *gen.Val {
 }
 
 // goProject: the value of node tgt read from the value v of node src.
-func goProject(src, tgt *gen.Node, v *gen.Val) *gen.Val {
+func goProject(src, tgt *gen.Node, v *gen.Val) *gen.Val { return goProjectAt(src, tgt, v, true) }
+
+// hasLeafField: the group has a column of its own.
+func hasLeafField(n *gen.Node) bool {
+	for _, f := range n.Fields {
+		if f.Leaf != "" {
+			return true
+		}
+	}
+	return false
+}
+
+// nothingShared: no column below the target group t tells anything about the
+// source group s, which is reached through required nodes only: every column
+// below t is missing in the source, and the deepest group both sides have on
+// its path is such a group without a column of its own (for these columns
+// Convert reads no source column at all).
+func nothingShared(s, t *gen.Node) bool {
+	for _, tf := range t.Fields {
+		si := fieldIndex(s, tf.Name)
+		if si < 0 || (s.Fields[si].Leaf != "") != (tf.Leaf != "") {
+			if hasLeafField(s) {
+				return false
+			}
+			continue
+		}
+		sf := s.Fields[si]
+		if tf.Leaf != "" || sf.Rep != gen.Req || isVariantNode(sf) || !nothingShared(sf, tf) {
+			return false
+		}
+	}
+	return true
+}
+
+// nullWidened counts the widened nodes read as null (coverage only).
+var nullWidened int
+
+// goProjectAt; top: every node above is required on both sides.
+func goProjectAt(src, tgt *gen.Node, v *gen.Val, top bool) *gen.Val {
 	if tgt.Leaf != "" {
 		return v
 	}
@@ -339,25 +411,38 @@ func goProject(src, tgt *gen.Node, v *gen.Val) *gen.Val {
 		sf, fv := src.Fields[si], v.Group[si]
 		switch tf.Rep {
 		case gen.Opt:
-			if fv.Null {
+			if sf.Rep == gen.Req {
+				// a required node read as an optional one is present wherever
+				// its parent is.  One free choice, made the way the library
+				// makes it: the outermost such node reads as null when no
+				// column below it says anything about the source
+				if top && tf.Leaf == "" && !isVariantNode(sf) && nothingShared(sf, tf) {
+					nullWidened++
+					out.Group = append(out.Group, &gen.Val{IsOpt: true, Null: true})
+				} else {
+					out.Group = append(out.Group, &gen.Val{IsOpt: true, Some: goProjectAt(sf, tf, fv, false)})
+				}
+			} else if fv.Null {
 				out.Group = append(out.Group, &gen.Val{IsOpt: true, Null: true})
 			} else {
-				out.Group = append(out.Group, &gen.Val{IsOpt: true, Some: goProject(sf, tf, fv.Some)})
+				out.Group = append(out.Group, &gen.Val{IsOpt: true, Some: goProjectAt(sf, tf, fv.Some, false)})
 			}
 		case gen.Rpt:
 			l := &gen.Val{IsRpt: true}
 			for _, y := range fv.List {
-				l.List = append(l.List, goProject(sf, tf, y))
+				l.List = append(l.List, goProjectAt(sf, tf, y, false))
 			}
 			out.Group = append(out.Group, l)
 		default:
-			out.Group = append(out.Group, goProject(sf, tf, fv))
+			out.Group = append(out.Group, goProjectAt(sf, tf, fv, top))
 		}
 	}
 	return out
 }
 
-// compatible: same-named nodes agree on kind, repetition and leaf type.
+// compatible: same-named nodes agree on kind, repetition and leaf type; the
+// one repetition change that keeps every value and the whole nesting is
+// allowed: a required node of the source may be optional in the target.
 func compatible(src, tgt *gen.Node) bool {
 	if (src.Leaf != "") != (tgt.Leaf != "") {
 		return false
@@ -367,7 +452,8 @@ func compatible(src, tgt *gen.Node) bool {
 	}
 	for _, tf := range tgt.Fields {
 		if si := fieldIndex(src, tf.Name); si >= 0 {
-			if src.Fields[si].Rep != tf.Rep || !compatible(src.Fields[si], tf) {
+			sr := src.Fields[si].Rep
+			if !(sr == tf.Rep || (sr == gen.Req && tf.Rep == gen.Opt)) || !compatible(src.Fields[si], tf) {
 				return false
 			}
 		}
@@ -479,19 +565,22 @@ type c12Case struct {
 }
 
 type built struct {
-	src, tgt   *gen.Node // the schema of the file (physical source) and the target
-	srcA       *gen.Node // the abstract source: variant columns stored the way the target declares them
-	ss, ts     *parquet.Schema
-	vals       []*gen.Val    // abstract source values
-	rows       []parquet.Row // source rows (file layout)
-	rowsA      []parquet.Row // source rows of the abstract source
-	want       []parquet.Row // expected target rows
-	added      []bool        // per target column
-	pairs      [][2]int      // (metadata, value) columns of the unshredded variants of the target
-	absToPhys  []int         // column of the file for every column of the abstract source
-	nRebuilt   int           // variant columns of the target that are reconstructed from a shredded source
-	compatible bool
-	layoutErr  string
+	src, tgt    *gen.Node // the schema of the file (physical source) and the target
+	srcA        *gen.Node // the abstract source: variant columns stored the way the target declares them
+	tgtN        *gen.Node // the target with the nodes that are required in the source required again (= tgt when nWidened == 0)
+	ss, ts      *parquet.Schema
+	vals        []*gen.Val    // abstract source values
+	rows        []parquet.Row // source rows (file layout)
+	rowsA       []parquet.Row // source rows of the abstract source
+	want        []parquet.Row // expected target rows
+	added       []bool        // per target column
+	pairs       [][2]int      // (metadata, value) columns of the unshredded variants of the target
+	absToPhys   []int         // column of the file for every column of the abstract source
+	nRebuilt    int           // variant columns of the target that are reconstructed from a shredded source
+	nWidened    int           // required nodes of the source that the target reads as optional
+	nullWidened bool          // one of them reads as null (nothing below it is read from the source)
+	compatible  bool
+	layoutErr   string
 }
 
 // sourceBase is the generated source before variant columns are put in.
@@ -509,6 +598,7 @@ func (cs *c12Case) build() *built {
 	b.src = insertVariants(base, cs.Variants, true)
 	b.srcA = insertVariants(base, cs.Variants, false)
 	b.tgt = applyEdits(b.srcA, cs.Edits)
+	b.tgtN, b.nWidened = narrowLike(b.tgt, b.srcA)
 	b.ss, b.ts = buildSchema(b.src), buildSchema(b.tgt)
 	b.compatible = compatible(b.srcA, b.tgt)
 	addedLeaves(b.srcA, b.tgt, false, &b.added)
@@ -520,7 +610,7 @@ func (cs *c12Case) build() *built {
 		b.absToPhys[i] = phys[p]
 	}
 	b.nRebuilt = countRebuilt(b.src, b.tgt)
-	if len(cs.Variants) > 0 {
+	if len(cs.Variants) > 0 || b.nWidened > 0 {
 		if e := schemaLayoutError(b.src, b.ss); e != "" {
 			b.layoutErr = "source: " + e
 		} else if e := schemaLayoutError(b.tgt, b.ts); e != "" {
@@ -529,6 +619,8 @@ func (cs *c12Case) build() *built {
 	}
 	rrng := rand.New(rand.NewSource(cs.Seed ^ 0x5DEECE66D))
 	vrng := rand.New(rand.NewSource(cs.Seed ^ 0x2545F4914F6CDD1D))
+	nullWidened = 0
+	defer func() { b.nullWidened = nullWidened > 0 }()
 	for i := 0; i < cs.NRows; i++ {
 		v := gen.Row(rrng, b.srcA, cs.NullBias)
 		pv := v
@@ -541,6 +633,31 @@ func (cs *c12Case) build() *built {
 		b.want = append(b.want, gen.Shred(b.tgt, goProject(b.srcA, b.tgt, v)))
 	}
 	return b
+}
+
+// narrowLike returns a copy of tgt in which every optional node that is
+// required in src is required again, and the number of such nodes: the target
+// is that tree (a target the source is converted to without any repetition
+// change) read through a schema that makes these nodes optional.
+func narrowLike(tgt, src *gen.Node) (*gen.Node, int) {
+	c, n := *tgt, 0
+	c.Fields = nil
+	for _, tf := range tgt.Fields {
+		var sf *gen.Node
+		if src != nil {
+			if si := fieldIndex(src, tf.Name); si >= 0 && (src.Fields[si].Leaf != "") == (tf.Leaf != "") {
+				sf = src.Fields[si]
+			}
+		}
+		nf, k := narrowLike(tf, sf)
+		if sf != nil && sf.Rep == gen.Req && tf.Rep == gen.Opt {
+			nf.Rep = gen.Req
+			k++
+		}
+		c.Fields = append(c.Fields, nf)
+		n += k
+	}
+	return &c, n
 }
 
 // countRebuilt counts the variant columns that the target declares unshredded
@@ -751,12 +868,13 @@ func leafPath(n *gen.Node, ci int) []string {
 }
 
 type pathFn struct {
-	name string
-	run  func(b *built, data []byte, cs *c12Case) ([]parquet.Row, error)
+	name        string
+	run         func(b *built, data []byte, cs *c12Case) ([]parquet.Row, error)
+	historyOnly bool // the path compares the rows itself, position by position (it returns no rows)
 }
 
 var paths = []pathFn{
-	{"Convert", func(b *built, _ []byte, _ *c12Case) ([]parquet.Row, error) {
+	{name: "Convert", run: func(b *built, _ []byte, _ *c12Case) ([]parquet.Row, error) {
 		conv, err := parquet.Convert(b.ts, b.ss)
 		if err != nil {
 			return nil, err
@@ -765,14 +883,14 @@ var paths = []pathFn{
 		n, err := conv.Convert(rows)
 		return rows[:n], err
 	}},
-	{"ConvertRowReader", func(b *built, _ []byte, cs *c12Case) ([]parquet.Row, error) {
+	{name: "ConvertRowReader", run: func(b *built, _ []byte, cs *c12Case) ([]parquet.Row, error) {
 		conv, err := parquet.Convert(b.ts, b.ss)
 		if err != nil {
 			return nil, err
 		}
 		return readAll(parquet.ConvertRowReader(&sliceReader{rows: b.rows, schema: b.ss}, conv), 1+int(cs.Seed%5))
 	}},
-	{"ConvertRowGroup.Rows", func(b *built, data []byte, cs *c12Case) ([]parquet.Row, error) {
+	{name: "ConvertRowGroup.Rows", run: func(b *built, data []byte, cs *c12Case) ([]parquet.Row, error) {
 		f, err := openFile(data)
 		if err != nil {
 			return nil, err
@@ -793,7 +911,7 @@ var paths = []pathFn{
 		}
 		return out, nil
 	}},
-	{"NewGenericReader(schema)", func(b *built, data []byte, cs *c12Case) ([]parquet.Row, error) {
+	{name: "NewGenericReader(schema)", run: func(b *built, data []byte, cs *c12Case) ([]parquet.Row, error) {
 		f, err := openFile(data)
 		if err != nil {
 			return nil, err
@@ -802,7 +920,7 @@ var paths = []pathFn{
 		defer r.Close()
 		return readAll(r, 2+int(cs.Seed%13))
 	}},
-	{"NewReader(schema)", func(b *built, data []byte, cs *c12Case) ([]parquet.Row, error) {
+	{name: "NewReader(schema)", run: func(b *built, data []byte, cs *c12Case) ([]parquet.Row, error) {
 		f, err := openFile(data)
 		if err != nil {
 			return nil, err
@@ -811,7 +929,7 @@ var paths = []pathFn{
 		defer r.Close()
 		return readAll(r, 1+int(cs.Seed%7))
 	}},
-	{"CopyRows", func(b *built, data []byte, cs *c12Case) ([]parquet.Row, error) {
+	{name: "CopyRows", run: func(b *built, data []byte, cs *c12Case) ([]parquet.Row, error) {
 		f, err := openFile(data)
 		if err != nil {
 			return nil, err
@@ -841,7 +959,7 @@ var paths = []pathFn{
 		defer r.Close()
 		return readAll(r, 4+int(cs.Seed%9))
 	}},
-	{"CopyRows(rows reader)", func(b *built, _ []byte, cs *c12Case) ([]parquet.Row, error) {
+	{name: "CopyRows(rows reader)", run: func(b *built, _ []byte, cs *c12Case) ([]parquet.Row, error) {
 		var out bytes.Buffer
 		w := parquet.NewGenericWriter[any](&out, b.ts)
 		if _, err := parquet.CopyRows(w, &sliceReader{rows: b.rows, schema: b.ss}); err != nil {
@@ -858,7 +976,7 @@ var paths = []pathFn{
 		defer r.Close()
 		return readAll(r, 4+int(cs.Seed%9))
 	}},
-	{"MergeRowGroups(schema)", func(b *built, data []byte, cs *c12Case) ([]parquet.Row, error) {
+	{name: "MergeRowGroups(schema)", run: func(b *built, data []byte, cs *c12Case) ([]parquet.Row, error) {
 		f, err := openFile(data)
 		if err != nil {
 			return nil, err
@@ -877,7 +995,7 @@ var paths = []pathFn{
 	// the last input is already in the target schema (no conversion), the
 	// earlier ones need one: the decision "some input is converted" must not
 	// depend on the order of the inputs
-	{"MergeRowGroups(schema), last input in the target schema", func(b *built, data []byte, cs *c12Case) ([]parquet.Row, error) {
+	{name: "MergeRowGroups(schema), last input in the target schema", run: func(b *built, data []byte, cs *c12Case) ([]parquet.Row, error) {
 		f, err := openFile(data)
 		if err != nil {
 			return nil, err
@@ -983,6 +1101,9 @@ func check(c *core.Ctx, cs *c12Case) (out *findings, bucket string, nontrivial b
 	bucket = fmt.Sprintf("%s/edits=%d", cs.Kind, len(cs.Edits))
 	nontrivial = len(cs.Edits) > 0 && cs.NRows > 0
 	srcTok, tgtTok := schemaTok(b.srcA), schemaTok(b.tgt)
+	// the model names a conversion by the source, the target with the widened
+	// nodes still required, and the target
+	tgtToks := schemaTok(b.tgtN) + " " + tgtTok
 	info := " [source " + b.src.Text() + " -> target " + b.tgt.Text() + "]"
 	equal := srcTok == tgtTok
 	nA := len(b.srcA.Leaves())
@@ -990,6 +1111,12 @@ func check(c *core.Ctx, cs *c12Case) (out *findings, bucket string, nontrivial b
 		bucket = fmt.Sprintf("%s+variant/edits=%d", cs.Kind, len(cs.Edits))
 		if b.nRebuilt > 0 && b.compatible {
 			bucket = fmt.Sprintf("%s+variant-reconstructed/edits=%d", cs.Kind, len(cs.Edits))
+		}
+	}
+	if b.nWidened > 0 && b.compatible {
+		bucket = strings.Replace(bucket, "/", "+widened/", 1)
+		if b.nullWidened {
+			bucket = strings.Replace(bucket, "+widened/", "+widened-null/", 1)
 		}
 	}
 	if b.layoutErr != "" {
@@ -1023,9 +1150,9 @@ func check(c *core.Ctx, cs *c12Case) (out *findings, bucket string, nontrivial b
 			}
 		}
 		if c.HasOracle() {
-			if a := c.Ask("c12.convert fixed " + srcTok + " " + tgtTok + " " + rowTok(nA, parquet.Row{})); !strings.HasPrefix(a, "REJECT") && len(b.rows) >= 0 {
+			if a := c.Ask("c12.convert fixed " + srcTok + " " + tgtToks + " " + rowTok(nA, parquet.Row{})); !strings.HasPrefix(a, "REJECT") && len(b.rows) >= 0 {
 				// the request above carries an empty row on purpose: the verdict does not depend on the row
-				out.mism("corr:C12.reject", srcTok+" "+tgtTok, "incompatible (harness rule)", a)
+				out.mism("corr:C12.reject", srcTok+" "+tgtToks, "incompatible (harness rule)", a)
 				ok = false
 			}
 		}
@@ -1034,7 +1161,7 @@ func check(c *core.Ctx, cs *c12Case) (out *findings, bucket string, nontrivial b
 
 	// specification side: goProject + gen.Shred == model project
 	if c.HasOracle() && len(b.rows) > 0 {
-		req := []string{"c12.project", srcTok, tgtTok, "64"}
+		req := []string{"c12.project", srcTok, schemaTok(b.tgtN), tgtTok, "64"}
 		var want []string
 		for i := range b.rows {
 			req = append(req, rowTok(nA, b.rowsA[i]))
@@ -1044,8 +1171,8 @@ func check(c *core.Ctx, cs *c12Case) (out *findings, bucket string, nontrivial b
 			out.mism("corr:C12.project", core.Trunc(strings.Join(req, " "), 1500), strings.Join(want, " "), a)
 			ok = false
 		}
-		if a := c.Ask("c12.compat " + srcTok + " " + tgtTok); a != "111"+map[bool]string{true: "1", false: "0"}[equal] {
-			out.mism("corr:C12.compat", srcTok+" "+tgtTok, "111"+map[bool]string{true: "1", false: "0"}[equal], a)
+		if a := c.Ask("c12.compat " + srcTok + " " + tgtToks); a != "111"+map[bool]string{true: "1", false: "0"}[equal]+"1" {
+			out.mism("corr:C12.compat", srcTok+" "+tgtToks, "111"+map[bool]string{true: "1", false: "0"}[equal]+"1", a)
 			ok = false
 		}
 	}
@@ -1063,8 +1190,15 @@ func check(c *core.Ctx, cs *c12Case) (out *findings, bucket string, nontrivial b
 				cl = "panic"
 			}
 			cl += "-on-compatible-target"
-			out.viol(cl, p.name+": "+core.Trunc(err.Error(), 300)+info)
+			var he *historyError
+			if errors.As(err, &he) {
+				cl = "row-history-differs"
+			}
+			out.viol(cl, p.name+": "+core.Trunc(err.Error(), 700)+info)
 			ok = false
+			continue
+		}
+		if p.historyOnly {
 			continue
 		}
 		got = canonVariants(b.pairs, b.want, got)
@@ -1075,7 +1209,7 @@ func check(c *core.Ctx, cs *c12Case) (out *findings, bucket string, nontrivial b
 		// correspondence with the model on the in-memory path (also when the
 		// predicate failed: the model may be the one of a defective tree)
 		if pi == 0 && c.HasOracle() && len(b.rows) > 0 && len(got) == len(b.rows) {
-			req := []string{"c12.convert", modelMode, srcTok, tgtTok}
+			req := []string{"c12.convert", modelMode, srcTok, schemaTok(b.tgtN), tgtTok}
 			var impl []string
 			for i := range b.rows {
 				req = append(req, rowTok(nA, b.rowsA[i]))
@@ -1096,7 +1230,7 @@ func check(c *core.Ctx, cs *c12Case) (out *findings, bucket string, nontrivial b
 					mode = "pinned"
 				}
 				// the model names columns of the abstract source: translate to the file's
-				a := c.Ask("c12.plan " + mode + " " + srcTok + " " + tgtTok)
+				a := c.Ask("c12.plan " + mode + " " + srcTok + " " + tgtToks)
 				if len(cs.Variants) > 0 {
 					parts := strings.Split(a, ",")
 					for i, x := range parts {
@@ -1108,7 +1242,7 @@ func check(c *core.Ctx, cs *c12Case) (out *findings, bucket string, nontrivial b
 					a = strings.Join(parts, ",")
 				}
 				if a != strings.Join(cols, ",") {
-					out.mism("corr:C12.column", srcTok+" "+tgtTok, strings.Join(cols, ","), a)
+					out.mism("corr:C12.column", srcTok+" "+tgtToks, strings.Join(cols, ","), a)
 					ok = false
 				}
 			}
@@ -1116,8 +1250,9 @@ func check(c *core.Ctx, cs *c12Case) (out *findings, bucket string, nontrivial b
 	}
 
 	// the column-chunk view of converted row groups (it hands out the chunks
-	// of the file: no reconstruction of shredded variants there)
-	if b.nRebuilt > 0 {
+	// of the file: no reconstruction of shredded variants there, and the
+	// levels of the file where the target reads a required node as optional)
+	if b.nRebuilt > 0 || b.nWidened > 0 {
 		return out, bucket, nontrivial
 	}
 	var got []parquet.Row
@@ -1161,15 +1296,17 @@ func chunkViewClass(cl string, nAdded int) string {
 // shrunk on its own (a known finding must not steer the shrinking of another
 // failure of the same case).
 type finding struct {
-	class             string // violation class, or the name of the correspondence
-	what              string
-	corr              bool
+	class              string // violation class, or the name of the correspondence
+	what               string
+	corr               bool
 	cs, impl, modelAns string
 }
 
 type findings struct{ list []finding }
 
-func (f *findings) viol(class, what string) { f.list = append(f.list, finding{class: class, what: what}) }
+func (f *findings) viol(class, what string) {
+	f.list = append(f.list, finding{class: class, what: what})
+}
 func (f *findings) mism(corr, cs, impl, model string) {
 	f.list = append(f.list, finding{class: corr, corr: true, cs: cs, impl: impl, modelAns: model})
 }
@@ -1260,7 +1397,7 @@ func shrink(c *core.Ctx, cs c12Case, class string) c12Case {
 }
 
 func run(c *core.Ctx) {
-	c.Res.Rule = "source schemas from harness/gen (required/optional/repeated leaves of every physical type, groups, LIST groups, depth <= 3) x edit scripts of 0..6 steps (delete a field, permute the fields of a group, add an optional/required/repeated leaf or group of depth <= 2, at any depth incl. inside LIST groups and next to their element) x 0..12 rows with null runs and empty/long lists; every pair runs through Convert+conversion.Convert, ConvertRowReader, ConvertRowGroup.Rows, NewGenericReader(file, schema), NewReader(file, schema), CopyRows (file reader and plain row reader into a writer with the target schema, read back), MergeRowGroups(schema), and the column-chunk view of converted row groups; each must equal the shredding of the projected value trees, in number and order; in a quarter of the pairs the source holds 1-2 VARIANT columns (required/optional/repeated, in any group) stored unshredded or shredded with a declared type (bool/int32/int64/double/string/bytes/date leaf, object, array, nested to depth 2) that the target declares unshredded (reconstruction) or with the same layout, the edit script deleting / permuting / adding siblings before and after them; the file rows are the shredding (harness implementation of VariantShredding.md) of generated logical values, the expected target pair is any encoding that decodes to the same logical value, at exactly the expected column, place and levels; NewGenericReader(file, schema) and NewReader(file, schema) are also driven through ReadRows(k)/SeekToRow/Reset histories; plus call histories on one deprecated parquet.Reader: source and 2-3 edited views rendered as Go struct types (reflect.StructOf), Read(&view_k) / ReadRows / SeekToRow / Reset sequences of 2-8 calls, files written with the generated schema or with the schema of the source struct type (identity shortcut), one or two row groups, reader opened plain or with a view schema, every value read deconstructed and compared with the shredding of the projection of the row at the reader position; plus a catalogue of (T1, T2) struct pairs through parquet.Write / parquet.Read[T2] and Read(k)/SeekToRow/Reset histories on one GenericReader[T2], incl. files with a shredded variant column (5 declared types, top level and in a repeated group) read into structs that declare it plain and add columns before/after/around it; plus targets in which a same-named node changes kind (must be rejected). Non-trivial = at least one edit and one row (histories: at least two distinct views read); distinct by the JSON of the case."
+	c.Res.Rule = "source schemas from harness/gen (required/optional/repeated leaves of every physical type, groups, LIST groups, depth <= 3) x edit scripts of 0..6 steps (delete a field, permute the fields of a group, add an optional/required/repeated leaf or group of depth <= 2, read a required leaf / group / LIST / variant of the source as an optional one [widening; now and then all fields of the widened group are replaced], at any depth incl. inside LIST groups and next to their element) x 0..12 rows with null runs and empty/long lists; every pair runs through Convert+conversion.Convert, ConvertRowReader, ConvertRowGroup.Rows, NewGenericReader(file, schema), NewReader(file, schema), CopyRows (file reader and plain row reader into a writer with the target schema, read back), MergeRowGroups(schema), and the column-chunk view of converted row groups; each must equal the shredding of the projected value trees, in number and order; in a quarter of the pairs the source holds 1-2 VARIANT columns (required/optional/repeated, in any group) stored unshredded or shredded with a declared type (bool/int32/int64/double/string/bytes/date leaf, object, array, nested to depth 2) that the target declares unshredded (reconstruction) or with the same layout, the edit script deleting / permuting / adding siblings before and after them; the file rows are the shredding (harness implementation of VariantShredding.md) of generated logical values, the expected target pair is any encoding that decodes to the same logical value, at exactly the expected column, place and levels; NewGenericReader(file, schema) and NewReader(file, schema) are also driven through ReadRows(k)/SeekToRow/Reset histories, and so are the conversion wrappers themselves: ConvertRowReader over rows in memory or over the rows of the file (forward SeekToRow to arbitrary, also unaligned rows, then >= 1 batches, then read to the end) and ConvertRowGroup(rg, conv).Rows() of every row group (SeekToRow in both directions), three histories in four with ALL reads going into ONE []Row buffer of 1..5 rows (fresh buffers otherwise), every row compared with the expected row of its position; plus row groups that DECLARE an order: the source rows split into 1-3 row groups, each sorted by 1-3 non-repeated leaf columns (ascending/descending, nulls first/last) and declaring so (parquet.Buffer or file row group), edit scripts biased towards deleting sorting columns or their ancestors; every ConvertRowGroup result must tell the truth: NumRows, Schema, one column chunk per target column with its index and kind, rows = projected rows in source order, every declared sorting column a column of the target and the rows IN the declared order (and = the model's kept prefix of the source's sorting columns); MergeRowGroups(inputs, target schema), MergeRowGroups(converted inputs, target schema) and MergeRowGroups(converted inputs) without a sorting option: same rows, in the order the merged row group declares, the inputs one after the other when it declares none; plus call histories on one deprecated parquet.Reader: source and 2-3 edited views rendered as Go struct types (reflect.StructOf), Read(&view_k) / ReadRows / SeekToRow / Reset sequences of 2-8 calls, files written with the generated schema or with the schema of the source struct type (identity shortcut), one or two row groups, reader opened plain or with a view schema, every value read deconstructed and compared with the shredding of the projection of the row at the reader position; plus a catalogue of (T1, T2) struct pairs through parquet.Write / parquet.Read[T2] and Read(k)/SeekToRow/Reset histories on one GenericReader[T2], incl. files with a shredded variant column (5 declared types, top level and in a repeated group) read into structs that declare it plain and add columns before/after/around it, or hold it in a group that is a struct in the file and a pointer in the struct read, the variant itself null in a third of the rows; plus targets in which a same-named node changes kind (must be rejected). Non-trivial = at least one edit and one row (histories: at least two distinct views read); distinct by the JSON of the case."
 	if modelMode != "fixed" {
 		c.Note("model selected by C12_MODEL=%s", modelMode)
 	}
@@ -1272,14 +1409,16 @@ func run(c *core.Ctx) {
 		cs := c12Case{Seed: seed, NRows: []int{0, 1, 3, 6, 12}[c.Rng.Intn(5)], MaxDepth: 1 + c.Rng.Intn(3), MaxFields: 1 + c.Rng.Intn(4), NullBias: c.Rng.Intn(8), Kind: "compat"}
 		src := gen.Schema(rand.New(rand.NewSource(seed)), gen.Config{MaxDepth: cs.MaxDepth, MaxFields: cs.MaxFields})
 		ne := c.Rng.Intn(7)
-		ops := []string{"del", "add", "add", "perm"}
-		switch c.Rng.Intn(6) {
+		ops := []string{"del", "add", "add", "perm", "opt"}
+		switch c.Rng.Intn(7) {
 		case 0:
 			ops = []string{"perm"}
 		case 1:
 			ops = []string{"del", "perm"}
 		case 2:
 			ops = []string{"add"}
+		case 3:
+			ops = []string{"opt", "opt", "add", "del"}
 		}
 		if i%4 == 1 {
 			// variant columns: stored shredded or not, declared unshredded by the target (or kept)
@@ -1302,6 +1441,7 @@ func run(c *core.Ctx) {
 		}
 	}
 	histories(c)
+	sortedCases(c)
 	typed(c)
 	writeVm(c, vm)
 }
@@ -1395,25 +1535,25 @@ func vmCase(cs *c12Case) string {
 	if _, err := conv.Convert(rows); err != nil {
 		return ""
 	}
-	return fmt.Sprintf("(%s,\n   %s,\n   %s,\n   %s)", coqSchema(b.src), coqSchema(b.tgt), coqRow(len(b.src.Leaves()), row), coqRow(len(b.added), rows[0]))
+	return fmt.Sprintf("(%s,\n   %s,\n   %s,\n   %s,\n   %s)", coqSchema(b.src), coqSchema(b.tgtN), coqSchema(b.tgt), coqRow(len(b.src.Leaves()), row), coqRow(len(b.added), rows[0]))
 }
 
 func writeVm(c *core.Ctx, vm []string) {
 	if len(vm) == 0 {
 		return
 	}
-	fn := "convert_bytes s t row"
+	fn := "convert_widen_bytes s tn t row"
 	if modelMode == "pinned" {
-		fn = "Some (convert_pinned_bytes s t row)"
+		fn = "Some (convert_pinned_bytes s tn row)"
 	}
-	c.Vm("From Coq Require Import List NArith Bool Arith.\nFrom PQ Require Import Dremel.Model Convert.Model.\nImport ListNotations.")
+	c.Vm("From Coq Require Import List NArith Bool Arith.\nFrom PQ Require Import Dremel.Model Convert.Model Convert.Widen.\nImport ListNotations.")
 	c.Vm("Definition ent := (option (list N) * nat * nat)%type.")
 	c.Vm("Definition bytes_eqb (a b : list N) : bool := if list_eq_dec N.eq_dec a b then true else false.")
 	c.Vm("Definition ent_eqb (a b : ent) : bool := let '(x, r, d) := a in let '(y, r', d') := b in\n  Nat.eqb r r' && Nat.eqb d d' && match x, y with None, None => true | Some u, Some v => bytes_eqb u v | _, _ => false end.")
 	c.Vm("Fixpoint list_eqb {A} (f : A -> A -> bool) (a b : list A) : bool :=\n  match a, b with [], [] => true | x :: a', y :: b' => f x y && list_eqb f a' b' | _, _ => false end.")
-	c.Vm("Definition cases : list (nschema * nschema * list (list ent) * list (list ent)) := [\n  " + strings.Join(vm, ";\n  ") + "].")
-	c.Vm("Definition mismatches := filter (fun '(s, t, row, want) =>\n  negb (match " + fn + " with Some got => list_eqb (list_eqb ent_eqb) got want | None => false end)) cases.")
-	c.Vm("Definition M := Eval vm_compute in (length cases, map (fun '(s, t, _, _) => (s, t)) mismatches).\nPrint M.")
+	c.Vm("Definition cases : list (nschema * nschema * nschema * list (list ent) * list (list ent)) := [\n  " + strings.Join(vm, ";\n  ") + "].")
+	c.Vm("Definition mismatches := filter (fun '(s, tn, t, row, want) =>\n  negb (match " + fn + " with Some got => list_eqb (list_eqb ent_eqb) got want | None => false end)) cases.")
+	c.Vm("Definition M := Eval vm_compute in (length cases, map (fun '(s, _, t, _, _) => (s, t)) mismatches).\nPrint M.")
 	c.Res.VmCases = len(vm)
 }
 
@@ -1623,6 +1763,11 @@ func replay(c *core.Ctx, raw json.RawMessage) {
 	var hc histCase
 	if err := json.Unmarshal(raw, &hc); err == nil && hc.Kind == "history" {
 		runHistCase(c, hc, true)
+		return
+	}
+	var sc sortedCase
+	if err := json.Unmarshal(raw, &sc); err == nil && sc.Kind == "sorted" {
+		runSortedCase(c, sc, true)
 		return
 	}
 	var cs c12Case
